@@ -114,6 +114,11 @@ class ArrayBinopSpec(FunctionSpec):
             if not E1 and E2:
                 q_exp = lambda I, q: quantity_is(I, q, X2, cap2)
                 bad_dims = F
+            elif not E1 and not E2:
+                # both sides dimensionless (a number and an Array without unit): some empty quantity (the
+                # process-wide one and the operand's are equal; which object comes back is not specified)
+                q_exp = lambda I, q: quantity_is(I, q, [], cap1)
+                bad_dims = F
             else:
                 q_exp = lambda I, q: z3.If(eq, z3.BoolVal(q.o is qa.o) if isinstance(q, SRef) else F, quantity_is(I, q, X1, cap1))
                 bad_dims = z3.And(z3.Not(eq), z3.Not(deq)) if (E1 and E2) else F
